@@ -8,25 +8,39 @@ import time
 from . import core
 
 
-def _cases_with_corpus(mod, tier, seed):
-    cases, meta = mod.gen_cases(tier, seed)
+def _load_corpus(mod):
     corpus_path = os.path.join(core.VERIF, "corpus", mod.PROP + ".json")
-    corpus = []
     if os.path.exists(corpus_path):
         with open(corpus_path) as fh:
-            corpus = json.load(fh)
-    return corpus + cases, len(corpus), meta
+            return json.load(fh)
+    return []
 
 
-def evaluate(mod, cases, tag=""):
-    """run the implementation and the Coq drivers on the cases.
-    returns dict(n, lists, obs, errors)"""
-    obs = mod.run_impl(cases) if hasattr(mod, "run_impl") else core.run_impl_parallel(getattr(mod, "IMPL", mod.PROP), cases)
+def _impl(mod, cases):
+    if not cases:
+        return []
+    if hasattr(mod, "run_impl"):
+        return mod.run_impl(cases)
+    return core.run_impl_parallel(getattr(mod, "IMPL", mod.PROP), cases)
+
+
+def explore(mod, tier, seed, tag=""):
+    """generate the cases of a tier, run the implementation and the Coq drivers.
+    returns (cases, ev, meta, ncorpus) with ev = dict(n, lists, obs, errors)"""
+    corpus = _load_corpus(mod)
+    if hasattr(mod, "gen_and_run"):
+        cases, obs, meta = mod.gen_and_run(tier, seed)
+        cobs = _impl(mod, corpus)
+        cases, obs = corpus + cases, cobs + obs
+    else:
+        cases, meta = mod.gen_cases(tier, seed)
+        cases = corpus + cases
+        obs = _impl(mod, cases)
     lits = [mod.literal(c, o) for c, o in zip(cases, obs)]
     reports, errors = core.run_shards(mod.PROP, mod.HEADER, mod.CASE_TYPE, mod.DRIVER, lits,
                                       shard_size=getattr(mod, "SHARD", 400), tag=tag)
     n, lists = core.merge_reports(reports, mod.WIDTH)
-    return {"n": n, "lists": lists, "obs": obs, "errors": errors}
+    return cases, {"n": n, "lists": lists, "obs": obs, "errors": errors}, meta, len(corpus)
 
 
 def classify(mod, cases, ev, findings):
@@ -87,8 +101,7 @@ def run(mod, tier, seed):
     if tier == "quick" and relevant_fp and os.environ.get("VERIF_NO_ESCALATE") != "1":
         eff_tier = "thorough"        # a changed source file gets the deeper run (not an alarm by itself)
 
-    cases, ncorpus, meta = _cases_with_corpus(mod, eff_tier, seed)
-    ev = evaluate(mod, cases)
+    cases, ev, meta, ncorpus = explore(mod, eff_tier, seed)
     violations, known, corr_only = classify(mod, cases, ev, findings)
     for e in ev["errors"]:
         broken.append({"obligation": "correspondence shard did not evaluate", "why": json.dumps(e)[-1500:]})
@@ -98,11 +111,10 @@ def run(mod, tier, seed):
                        "first_differing_case": mod.describe(cases[i], ev["obs"][i]), "count": len(corr_only)})
 
     escalated = False
-    if broken and not violations and eff_tier == "quick":
+    if broken and not violations and eff_tier == "quick" and os.environ.get("VERIF_NO_ESCALATE") != "1":
         # search deeper for a concrete failing input
         escalated = True
-        cases2, _, meta2 = _cases_with_corpus(mod, "thorough", seed)
-        ev2 = evaluate(mod, cases2, tag="x")
+        cases2, ev2, meta2, _ = explore(mod, "thorough", seed, tag="x")
         v2, k2, c2 = classify(mod, cases2, ev2, findings)
         if v2:
             cases, ev, violations, known, corr_only, meta = cases2, ev2, v2, k2, c2, meta2
